@@ -81,6 +81,7 @@ type World struct {
 type Spec struct {
 	NEntities        int      `json:"entities"`
 	NodesPerEntity   []int    `json:"nodes_per_entity"`
+	NodeRoles        [][]int  `json:"node_roles"` // per entity, per node: 1 validator, 2 compute, 3 both
 	NUsers           int      `json:"users"`
 	EpochInterval    int64    `json:"epoch_interval"`
 	DebondingIv      uint64   `json:"debonding_interval"`
@@ -455,7 +456,7 @@ func BuildGenesis(spec *Spec) (*World, error) {
 		}
 		doc.Registry.Entities = append(doc.Registry.Entities, se)
 		for _, nk := range ek.Nodes {
-			nd := w.NodeDescriptor(ek, nk, epochBase+beacon.EpochTime(spec.MaxNodeExp), node.RoleValidator, rt != nil)
+			nd := w.NodeDescriptor(ek, nk, epochBase+beacon.EpochTime(spec.MaxNodeExp), 0, false)
 			sn, err := node.MultiSignNode(nk.Signers(), registry.RegisterGenesisNodeSignatureContext, nd)
 			if err != nil {
 				return nil, err
@@ -469,8 +470,39 @@ func BuildGenesis(spec *Spec) (*World, error) {
 
 func cborV(v uint16) cbor.Versioned { return cbor.NewVersioned(v) }
 
-// NodeDescriptor builds a node descriptor with routable fake addresses.
-func (w *World) NodeDescriptor(ek *EntityKeys, nk *NodeKeys, expiration beacon.EpochTime, roles node.RolesMask, compute bool) *node.Node {
+// RolesOf returns the role mask configured for a node in the spec (validator when unspecified).
+func (w *World) RolesOf(nk *NodeKeys) node.RolesMask {
+	for i, ek := range w.Entities {
+		for j, x := range ek.Nodes {
+			if x != nk {
+				continue
+			}
+			r := 1
+			if i < len(w.Spec.NodeRoles) && j < len(w.Spec.NodeRoles[i]) {
+				r = w.Spec.NodeRoles[i][j]
+			}
+			var m node.RolesMask
+			if r&1 != 0 {
+				m |= node.RoleValidator
+			}
+			if r&2 != 0 && w.Runtime != nil {
+				m |= node.RoleComputeWorker
+			}
+			if m == 0 {
+				m = node.RoleValidator
+			}
+			return m
+		}
+	}
+	return node.RoleValidator
+}
+
+// NodeDescriptor builds a node descriptor with routable fake addresses and the roles configured in
+// the spec (the roles/compute arguments are kept for callers that want to override: non-zero roles win).
+func (w *World) NodeDescriptor(ek *EntityKeys, nk *NodeKeys, expiration beacon.EpochTime, roles node.RolesMask, _ bool) *node.Node {
+	if roles == 0 || roles == node.RoleValidator {
+		roles = w.RolesOf(nk)
+	}
 	// deterministic per-name address byte
 	var sum byte
 	for _, c := range []byte(nk.Name) {
@@ -492,8 +524,7 @@ func (w *World) NodeDescriptor(ek *EntityKeys, nk *NodeKeys, expiration beacon.E
 		Roles:           roles,
 		SoftwareVersion: node.SoftwareVersion(version.SoftwareVersion),
 	}
-	if compute && w.Runtime != nil {
-		nd.Roles |= node.RoleComputeWorker
+	if roles&node.RoleComputeWorker != 0 && w.Runtime != nil {
 		nd.Runtimes = []*node.Runtime{{ID: w.Runtime.ID}}
 	}
 	return nd
